@@ -120,6 +120,7 @@ func (encryptor *QueryDataEncryptor) encryptInsertQuery(ctx context.Context, ins
 			ctx,
 			sqlparser.UpdateExprs(insert.OnDup),
 			onDupTables,
+			len(onDupTables),
 			base.NewAliasToTableMapFromTables(onDupTables),
 			bindPlaceholders)
 		if err != nil {
@@ -168,13 +169,32 @@ func (encryptor *QueryDataEncryptor) hasTablesToEncrypt(tables []*base.AliasedTa
 	return false
 }
 
+// schemaKnowsColumn tells whether the config of the table lists the column (as encrypted or in `columns`)
+func schemaKnowsColumn(schema config.TableSchema, columnName string) bool {
+	if schema == nil {
+		return false
+	}
+	if schema.NeedToEncrypt(columnName) {
+		return true
+	}
+	for _, column := range schema.Columns() {
+		if column == columnName {
+			return true
+		}
+	}
+	return false
+}
+
 // updateTarget finds the table schema (nil if not configured) and the column name, spelled as the config spells
 // it, which the target of a SET / ON DUPLICATE KEY UPDATE assignment refers to.
 // A qualified target is looked up among the tables and aliases of the statement in the spelling of the config
 // (TableIdent.String() keeps case and quotes: `UPDATE t AS X SET X.col = 'v'`, `UPDATE T SET T.col = 'v'` found no
 // schema and the value reached the database in the clear).
-// A target without qualifier is a column of the first table.
-func (encryptor *QueryDataEncryptor) updateTarget(name *sqlparser.ColName, tables []*base.AliasedTableName, qualifierMap base.AliasToTableMap) (config.TableSchema, string) {
+// A target without qualifier is a column of one of the updated tables: the first `updated` entries of tables
+// (UPDATE <these> SET ..; the tables of a PostgreSQL FROM clause follow them and cannot be assigned to). In a MySQL
+// multiple-table UPDATE that may be any of the joined tables: the first one whose config knows the column is used,
+// the first table if none does.
+func (encryptor *QueryDataEncryptor) updateTarget(name *sqlparser.ColName, tables []*base.AliasedTableName, updated int, qualifierMap base.AliasToTableMap) (config.TableSchema, string) {
 	columnName := name.Name.ValueForConfig()
 	if !name.Qualifier.IsEmpty() {
 		tableName, ok := qualifierMap[name.Qualifier.Name.ValueForConfig()]
@@ -183,14 +203,19 @@ func (encryptor *QueryDataEncryptor) updateTarget(name *sqlparser.ColName, table
 		}
 		return encryptor.schemaStore.GetTableSchema(tableName), columnName
 	}
+	for _, table := range tables[:updated] {
+		if schema := encryptor.schemaStore.GetTableSchema(table.TableName.Name.ValueForConfig()); schemaKnowsColumn(schema, columnName) {
+			return schema, columnName
+		}
+	}
 	return encryptor.schemaStore.GetTableSchema(tables[0].TableName.Name.ValueForConfig()), columnName
 }
 
 // encryptUpdateExpressions try to encrypt all supported exprs (see updateTarget for the table a column belongs to)
-func (encryptor *QueryDataEncryptor) encryptUpdateExpressions(ctx context.Context, exprs sqlparser.UpdateExprs, tables []*base.AliasedTableName, qualifierMap base.AliasToTableMap, bindPlaceholders map[int]config.ColumnEncryptionSetting) (bool, error) {
+func (encryptor *QueryDataEncryptor) encryptUpdateExpressions(ctx context.Context, exprs sqlparser.UpdateExprs, tables []*base.AliasedTableName, updated int, qualifierMap base.AliasToTableMap, bindPlaceholders map[int]config.ColumnEncryptionSetting) (bool, error) {
 	changed := false
 	for _, expr := range exprs {
-		schema, columnName := encryptor.updateTarget(expr.Name, tables, qualifierMap)
+		schema, columnName := encryptor.updateTarget(expr.Name, tables, updated, qualifierMap)
 		if schema == nil {
 			continue
 		}
@@ -216,7 +241,10 @@ func (encryptor *QueryDataEncryptor) encryptUpdateQuery(ctx context.Context, upd
 		fromTables = append(fromTables, update.From...)
 	}
 
-	tables := GetTablesWithAliases(fromTables)
+	// the updated tables first, then the tables of a FROM clause
+	tables := GetTablesWithAliases(update.TableExprs)
+	updated := len(tables)
+	tables = append(tables, GetTablesWithAliases(update.From)...)
 	if !encryptor.hasTablesToEncrypt(tables) {
 		return false, nil
 	}
@@ -229,7 +257,11 @@ func (encryptor *QueryDataEncryptor) encryptUpdateQuery(ctx context.Context, upd
 		return false, encryptor.onReturning(ctx, update.Returning, fromTables)
 	}
 
-	return encryptor.encryptUpdateExpressions(ctx, update.Exprs, tables, qualifierMap, bindPlaceholders)
+	if updated == 0 {
+		// no plain table is updated (UPDATE (SELECT ..) AS s .. FROM t)
+		return false, nil
+	}
+	return encryptor.encryptUpdateExpressions(ctx, update.Exprs, tables, updated, qualifierMap, bindPlaceholders)
 }
 
 // OnColumn return new encryption setting context if info exist, otherwise column data and passed context will be returned
@@ -557,9 +589,10 @@ func (encryptor *QueryDataEncryptor) encryptUpdateValues(ctx context.Context, up
 	// encrypted columns in the clear (`SET Col = ?`, `UPDATE t1 JOIN t2 .. SET t2.col = ?`) and encrypted
 	// parameters of columns of other tables.
 	tables := GetTablesWithAliases(update.TableExprs)
+	updated := len(tables)
 	tables = append(tables, GetTablesWithAliases(update.From)...)
-	// If none of the tables has a schema entry (or there is no plain table at all), there is nothing to encrypt here.
-	if len(tables) == 0 || !encryptor.hasTablesToEncrypt(tables) {
+	// If none of the tables has a schema entry (or no plain table is updated), there is nothing to encrypt here.
+	if updated == 0 || !encryptor.hasTablesToEncrypt(tables) {
 		logrus.Debugln("No encryption schema")
 		return values, false, nil
 	}
@@ -583,7 +616,7 @@ func (encryptor *QueryDataEncryptor) encryptUpdateValues(ctx context.Context, up
 		if !ok {
 			continue
 		}
-		schema, columnName := encryptor.updateTarget(expr.Name, tables, qualifierMap)
+		schema, columnName := encryptor.updateTarget(expr.Name, tables, updated, qualifierMap)
 		target := "." + columnName
 		if schema != nil {
 			target = schema.Name() + target
